@@ -159,3 +159,85 @@ func FuzzC20(f *testing.F) {
 		fuzzFail(t, C20IP4, cs, guard(func() Result { return evalIP4(cs) }))
 	})
 }
+
+// FuzzC05: containment / nesting / order invariants on whatever the fuzzer gets accepted.
+func FuzzC05(f *testing.F) {
+	addMsgSeeds(f)
+	f.Fuzz(func(t *testing.T, data []byte, a, b, step uint8, first uint16) {
+		if len(data) > 4096 {
+			return
+		}
+		hcap := 0
+		switch a % 4 {
+		case 1:
+			hcap = -1
+		case 2:
+			hcap = 1 + int(a>>2)%6
+		}
+		cs := CaseContain{Buf: data, Flags: uint(b & 3), Sched: schedFromSeed(len(data), step, first), HCap: hcap, Class: "in:fuzz"}
+		if b&0x80 != 0 {
+			cs.Pre = B("\r\n\r\n")[:1+int(b>>4)%4]
+		}
+		fuzzFail(t, C05Contain, cs, guard(func() Result { return evalContain(cs) }))
+	})
+}
+
+// FuzzC11: the same bytes at offset 0 and behind k junk bytes, for the message parser and every stand-alone parser.
+func FuzzC11(f *testing.F) {
+	for i := range allKinds {
+		f.Add([]byte("INVITE sip:a SIP/2.0\r\nm: \"x\" <sip:a>;q=1, *\r\nl: 2\r\n\r\nab"), uint8(i), uint8(0), uint8(0), uint8(1), uint16(0), uint16(5))
+		f.Add([]byte("a=1;b=\"q\\\"\";lr , x\r\nN"), uint8(i), uint8(3), uint8(0x14), uint8(2), uint16(1), uint16(300))
+	}
+	f.Fuzz(func(t *testing.T, data []byte, kind, a, b, step uint8, first, k uint16) {
+		if len(data) > 2048 || len(data) == 0 {
+			return
+		}
+		kd := allKinds[int(kind)%len(allKinds)]
+		kk := 1 + int(k)%3000
+		if k == 0xffff {
+			kk = -1 // the text ends exactly at 65,535
+		}
+		cs := CaseShift{Cfg: fuzzCfg(kd, a, b), Buf: data, K: kk, Junk: B("x\r\n :;<\"")[:1+int(a)%8], Sched: schedFromSeed(len(data), step, first)}
+		fuzzFail(t, C11Shift, cs, guard(func() Result { return evalShift(cs) }))
+	})
+}
+
+// FuzzC13: small caller arrays against ample ones on whatever parses successfully.
+func FuzzC13(f *testing.F) {
+	for i := range allKinds {
+		f.Add([]byte("REGISTER sip:r SIP/2.0\r\nm: <sip:a>;expires=5, <sip:b>;expires=9\r\nContact: <sip:c>\r\nv: x\r\nv: y\r\nl: 0\r\n\r\n"), uint8(i), uint8(9), uint8(0), uint8(1), uint16(0))
+		f.Add([]byte("transport=udp;maddr=1.2.3.4;ttl=3;x;y=z?h"), uint8(i), uint8(0x40), uint8(2), uint8(3), uint16(2))
+	}
+	f.Fuzz(func(t *testing.T, data []byte, kind, a, b, step uint8, first uint16) {
+		if len(data) > 4096 {
+			return
+		}
+		kd := allKinds[int(kind)%len(allKinds)]
+		cs := CaseCap{Cfg: fuzzCfg(kd, a, b), Buf: data, Sched: schedFromSeed(len(data), step, first), Class: "in:fuzz"}
+		if b&0x80 != 0 {
+			cs.Pre = B("zz\r\n")
+		}
+		fuzzFail(t, C13Cap, cs, guard(func() Result { return evalCap(cs) }))
+	})
+}
+
+// FuzzC12: one earlier use (complete, abandoned or failed), a reset, then the probe - against a new object.
+func FuzzC12(f *testing.F) {
+	for i := range allKinds {
+		f.Add([]byte("INVITE sip:a SIP/2.0\r\nm: <sip:a>;q=1, <sip:b>\r\nf: \"x"), []byte("SIP/2.0 200 OK\r\nm: <sip:c>\r\n\r\n"), uint8(i), uint8(9), uint8(0), uint8(2), uint16(7))
+		f.Add([]byte("a=1;b=\"q"), []byte("c;d=e\r\nX"), uint8(i), uint8(0), uint8(0x14), uint8(1), uint16(3))
+	}
+	f.Fuzz(func(t *testing.T, first, probe []byte, kind, a, b, step uint8, cut uint16) {
+		if len(first) > 2048 || len(probe) > 2048 {
+			return
+		}
+		kd := allKinds[int(kind)%len(allKinds)]
+		cfg := fuzzCfg(kd, a, b)
+		op := Op{Buf: first, Sched: schedFromSeed(len(first), step, cut), Flags: cfg.Flags, EndLast: cfg.EndLast, UseInit: step&1 == 1}
+		if step&2 != 0 {
+			op.Abandon = 1 + int(step>>2)%3
+		}
+		cs := CaseReset{Cfg: cfg, Ops: []Op{op}, Probe: probe, PSch: schedFromSeed(len(probe), step>>1, cut>>3)}
+		fuzzFail(t, C12Reset, cs, guard(func() Result { return evalReset(cs) }))
+	})
+}
